@@ -455,6 +455,9 @@ func Check() *common.Check {
 	return &common.Check{
 		ID:    "C08",
 		Level: "model_checking",
+		// every case is recorded before it runs: a fatal error or a hang of the worker is attributed to it
+		CrashSafe: true,
+		MemLimit:  8 << 30,
 		Rule: "every history over the parser alphabet (17 operations: Parse valid/invalid, ParseWithPositions multi-line invalid, ParseContext live / already cancelled / cancelled at the 6th poll, " +
 			"ParseWithRecovery, parse past the recursion limit, ApplyOptions strict / mysql, Reset, Release, PutParser with the same object then used as the next holder's, NewParser) and the tokenizer alphabet " +
 			"(11 operations: Tokenize valid / unterminated string / comments / larger than MaxInputSize, TokenizeContext cancelled / cancelled at the 4th poll, SetDialect, SetLogger, Reset, PutTokenizer, New) of length 0..4 (quick) / 0..5 (thorough), " +
